@@ -91,7 +91,7 @@ class Bio(Suite):
             # adversarial for F4: first-appearance order in the dataset differs from the order in unified / consensus rankings
             D = gen.random_dataset(rng, 7, 5) if rng.random() < 0.6 else layered_dataset(rng, 7, 5)
             s = opt_scheme(rng) if st in ("none", "copeland") else bio_scheme(rng)
-            cases.append({"s": s, "D": D, "starters": st, "one": rng.random() < 0.4, "as_tuple": rng.random() < 0.3})
+            cases.append({"s": s, "D": D, "starters": st, "one": rng.random() < 0.4, "as_tuple": rng.random() < 0.3, "np_print": rng.random() < 0.2})
         # a duplicated input ranking placed BEFORE a distinct, much better one (e.g. a previously computed consensus
         # appended to the data), and two starters with the same consensus listed before a better one
         for _ in range(60 if tier == "quick" else 800):
@@ -107,7 +107,8 @@ class Bio(Suite):
                 return [[e] for e in p]
             first = noisy(rng.randint(2, 4))
             D = [first, [list(b) for b in first]] + [noisy(rng.randint(2, 5)) for _ in range(rng.randint(1, 3))] + [[[e] for e in hidden]]
-            cases.append({"s": gen.UNIFYING, "D": D, "starters": rng.choice(["none", "none", "borda+copeland+pickaperm"]), "one": rng.random() < 0.3})
+            cases.append({"s": gen.UNIFYING, "D": D, "starters": rng.choice(["none", "none", "borda+copeland+pickaperm"]), "one": rng.random() < 0.3,
+                          "np_print": rng.random() < 0.5})
         # incomplete datasets in which some rankings are a single bucket over a part of the universe, under schemes where ties are cheap:
         # the all-tied departure (one of the starting points the statement names) is then the best one, and no input ranking stands for it
         # (the local search reaches it from the other departures in about 99 cases out of 100: hence the number of cases)
@@ -166,7 +167,14 @@ class Bio(Suite):
                 out["starts"] = [lst(a.compute_consensus_rankings(ds, sc, True).consensus_rankings[0]) for a in starts]
             if case.get("seasoned"):
                 seasoned(alg, case["D"], case["s"])
-            cons = alg.compute_consensus_rankings(ds, sc, case["one"])
+            if case.get("np_print"):
+                # numpy's print options are global state that any caller may have changed (here: arrays of more than 4 entries are
+                # abbreviated, as they are by default beyond 1000): what the algorithm returns must not depend on how arrays PRINT
+                import numpy as _np
+                with _np.printoptions(threshold=4, edgeitems=1):
+                    cons = alg.compute_consensus_rankings(ds, sc, case["one"])
+            else:
+                cons = alg.compute_consensus_rankings(ds, sc, case["one"])
             out["cons"] = [lst(r) for r in cons.consensus_rankings]
             out["score"] = to_units(cons.kemeny_score)
             out["raw"] = float(cons.kemeny_score)
